@@ -243,7 +243,7 @@ def finalize_lattice(enc, box, scale, shift):
                 pw = pb[x][1] - pb[x][0]
                 w = b[x][1] - b[x][0]
                 wdev.append(0 if w * Kw == pw else 1000)
-        return {"id": c["id"], "par": c["par"], "dep": c["dep"], "idx": c["idx"], "box": bb, "cpt": cc, "relc": relc, "relw": relw, "cdev": cdev, "wdev": wdev}
+        return {"id": c["id"], "par": c["par"], "dep": c["dep"], "idx": c["idx"], "box": bb, "cpt": cc, "relc": relc, "relw": relw, "cdev": cdev, "wdev": wdev, "hw2": 0}
 
     out = []
     for ev in enc.events:
